@@ -176,6 +176,40 @@ def _config_job(job):
     return item_digests(_JOB_TERMS, creation_order=order)
 
 
+ONEVAR = [NPow(x, 23), NPow(x, 34), NPow(x, 13), Exp(x, 10), Pow(x, C(23)), Mul(NPow(x, 17), C(3)), Log(x, 2), Root(x, 3),
+          Div(Log(x), x), Div(NPow(x, 2), C(7)), Log(Add(NPow(x, 2), C(1)), 10), Mul(x, Sin(x), Exp(x)), NPow(x, 3),
+          Add(Log(x, 2), C(1)), Recip(Mul(x, x)), Pow(x, x)]
+ONEVAR_POINTS = [10, 3, 17, 23, 0.3, 2, 7]
+
+
+def spelling_and_repetition_problems():
+    """Within one process: a bare number and the one-coordinate Point it denotes must give bit-identical results
+    (argument spelling), and asking the same kept object the same question again must give bit-identical results."""
+    import smoothmath as sm
+    probs = []
+    n = 0
+    for t in ONEVAR:
+        for v in ONEVAR_POINTS:
+            for label, mk in (("at", lambda e: e), ("Derivative(late).at", lambda e: sm.Derivative(e)),
+                              ("Derivative(early).at", lambda e: sm.Derivative(e, compute_early=True))):
+                o1 = A.outcome(lambda: mk(A.build(t)).at(v))
+                o2 = A.outcome(lambda: mk(A.build(t)).at(sm.Point(x=v)))
+                n += 2
+                if o1[0] != o2[0] or (o1[0] == "val" and float(o1[1]).hex() != float(o2[1]).hex()):
+                    probs.append(f"{label}: {M.show(t)} at the bare number {v!r} gives {o1[:2]} but at Point(x={v!r}) gives {o2[:2]}")
+                obj = mk(A.build(t))
+                first = A.outcome(lambda: obj.at(v))
+                A.outcome(lambda: obj.at(ONEVAR_POINTS[0]))
+                again = A.outcome(lambda: obj.at(v))
+                third = A.outcome(lambda: obj.at(v))
+                n += 4
+                for o in (again, third):
+                    if o[0] != first[0] or (o[0] == "val" and float(o[1]).hex() != float(first[1]).hex()):
+                        probs.append(f"{label}: the same object asked again at {v!r} for {M.show(t)}: first {first[:2]}, later {o[:2]}")
+                        break
+    return probs, n
+
+
 def _perm_for(n, k):
     perms = list(itertools.permutations(range(n)))
     return perms[k % len(perms)]
@@ -346,6 +380,12 @@ def run_c18(tier, seed):
             compare("same process, after earlier requests that failed part-way (overflowing fold, DomainError, CoordinateMissing)", d)
         else:
             compare(f"creation order {order}", d)
+    # within-process consistency: number vs Point spelling, repeated identical questions
+    sp, n_sp = spelling_and_repetition_problems()
+    st.inc("transitions", n_sp)
+    st.inc("states")
+    for why in sp[:5]:
+        st.violation({"why": why, "config": "within one process"})
     # (b) hash seeds in fresh interpreters
     width = 32 if tier != "thorough" else 256
     seeds = [None] + [seed * 64 + i for i in range(width)]
